@@ -15,7 +15,7 @@ AUDIT = "Ymq.Audit.C10"
 THEOREMS = ["Ymq.C10." + t for t in (
     "dispatch_ok pack_unpack cycExact_exact kronecker_cyclic kronecker_old_index_drops_wrap "
     "reduce_spec add_assign_spec add_small_spec sub_assign_spec butterfly_spec shl_spec shr_spec sqrt2_sq twiddle_spec root_pow "
-    "crt_unique crt_value crt_q_estimate_partial").split()]
+    "root_half crt_unique crt_value crt_q_estimate_partial ntt_table_ok dft_conv").split()]
 HYPOTHESES = []
 PROFILES = ["release", "chk"]
 TIMEOUT = 60.0
@@ -270,10 +270,10 @@ def convolve_cases(rng, tier, extended):
         scale *= 4
     out = []
     # explicit operands, K + O
-    plan = [(2, 30), (4, 30), (8, 40), (16, 40), (32, 30), (64, 20), (128, 10), (256, 8), (512, 4), (1024, 3), (2048, 1), (4096, 1)]
+    plan = [(2, 50), (4, 50), (8, 70), (16, 70), (32, 50), (64, 30), (128, 16), (256, 10), (512, 6), (1024, 3), (2048, 2), (4096, 1)]
     for size, cnt in plan:
         for c in range(cnt * scale):
-            bits = rng.choice(BOUNDARY) if c % 2 == 0 else rng.choice(BITS)
+            bits = rng.choice(BOUNDARY) if c % 3 == 0 else (rng.choice([x for x in BITS if x <= 150]) if c % 3 == 1 else rng.choice(BITS))
             n = modulus(rng, bits)
             arm = arm_of(bits, size)
             A = 1 << arm[2]
@@ -294,7 +294,7 @@ def convolve_cases(rng, tier, extended):
         if st == 0:
             continue
         A = 1 << lpk
-        for c in range(6 * scale):
+        for c in range(12 * scale):
             size = A << rng.randrange(0, 4)
             bits = min(b, 500) if c % 2 == 0 else rng.choice([x for x in BITS if x <= min(b, 500)])
             n = modulus(rng, bits)
@@ -376,7 +376,7 @@ def poly_cases(rng, tier, extended):
     out = []
     lens = POLY_LENS + ([300, 511, 512, 513, 640, 1000, 1023, 1024, 1025] if tier != "quick" else [])
     for L in lens:
-        reps = (3 if L <= 64 else 1) * scale
+        reps = (5 if L <= 64 else 2) * scale
         for _ in range(reps):
             n = poly_modulus(rng)
             kind = rng.choice(["rand", "max", "mix", "near"])
@@ -531,7 +531,7 @@ def fint_cases(rng, tier, extended):
     if extended:
         scale *= 5
     out = []
-    for _ in range(2600 * scale):
+    for _ in range(5000 * scale):
         N = rng.choice(FINT_N)
         if N >= 64 and rng.randrange(3):
             N = rng.choice([1, 2, 3, 4, 8, 16])
@@ -629,7 +629,7 @@ def mzp_w(n, logk):
 
 
 def mzp_cases(rng, tier, extended):
-    scale = 1 if tier == "quick" else 10
+    scale = 2 if tier == "quick" else 12
     if extended:
         scale *= 5
     out = []
@@ -969,7 +969,16 @@ def klass(case, ans):
             return f"{op}/{'direct' if la < nn else 'chunks%d' % min(3, -(-la // nn))}/{'ntt' if lb >= 28 else 'kara'}/b{size_class(lb)}{bad}"
         ring = int(a[1])
         ln = a[-1].count(",") + 1
-        return f"{op}/{'ntt' if ring >= 28 else 'kara'}/len{size_class(ln)}{bad}"
+        tag = ""
+        if op == "pf_middlemul":
+            tag = "/pow2" if ln & (ln - 1) == 0 else ("/pow2+1" if (ln - 1) & (ln - 2) == 0 else "/other")
+        elif op in ("pf_div_mod_xn", "pf_inv_mod_xn"):
+            q0 = int(a[-1].split(",")[0])
+            tag = "/q0=1" if q0 == 1 else ("/unit" if math.gcd(q0, n) == 1 else "/nonunit")
+            if op == "pf_div_mod_xn" and a[2].split(",")[0] == "1":
+                tag += "-p0=1"
+            tag += "/odd" if ln % 2 else "/even"
+        return f"{op}/{'ntt' if ring >= 28 else 'kara'}{tag}/len{size_class(ln)}{bad}"
     except Exception as e:   # classification must never break a run
         return f"{op}/unclassified"
 
@@ -987,7 +996,10 @@ CLAIM = ("Lean theorems, for all inputs, about models of the mechanisms of arith
          "every N >= 1: reduce, add_assign, add_small, sub_assign, butterfly, shl (every shift amount, all word-shift branches and both "
          "carry-free shortcuts), shr, twiddle return the right residue in the code's normal form without reaching a panic site; "
          "sqrt2_sq and root_pow: the twiddle root is a 2^k-th root of unity; (3) MultiZmodP: the CRT quotient is unique and < w, the value "
-         "assembled by _crt is congruent to the reconstructed integer, and the truncated quotient estimate is exact under stated bounds. "
+         "assembled by _crt is congruent to the reconstructed integer, the truncated quotient estimate is exact under stated bounds, and the "
+         "translated prime table is pairwise coprime with Montgomery constant p-2 and generators of order exactly 2^32 (ntt_table_ok); "
+         "(4) dft_conv: in any commutative ring the radix-2 recursion of fft/ntt_inplace computes the DFT for a principal 2^k-th root, the "
+         "inverse direction gives 2^k f, and transform/pointwise product/inverse transform is 2^k times the cyclic convolution. "
          "Every public entry point (convolve_modn, convolve_modn_ntt, Poly::{from_roots, roots_eval, multi_eval, mul_karatsuba, mul_fft, "
          "middlemul, div_mod_xn} and the private _inv_mod_xn, _longmul) is compared in both build profiles with an executable schoolbook "
          "specification model (K) and judged by an independent Python schoolbook/big-integer oracle (O).")
@@ -995,9 +1007,10 @@ LEVEL_NOTE = ("Trusted: Lean kernel (+propext, Classical.choice, Quot.sound); th
               "the harness in both profiles, not proved); the translator for the dispatch table and the prime table; Python integers in the oracle. "
               "PARTIAL BY DESIGN, no theorem, tied to the schoolbook specification by K/O only: Poly::karatsuba and the Karatsuba routine inside "
               "FInt::mul (the FInt model takes the exact 2N-word product), _middlemul (Hanrot-Quercia-Zimmermann), Newton _inv_mod_xn/_div_mod_xn, "
-              "product and remainder trees (_product_tree, _multi_eval), MultiZmodP::ntt_inplace, the recursive Fermat fft/mulfft (modelled "
-              "word-exactly and compared, but the theorem dft_conv is not proved: kronecker_cyclic takes the exactness of the transform product as "
-              "its hypothesis ExactCyc, checked on the code by fint_mulfft cases). crt_q_estimate_partial is an arithmetic statement: that the words "
+              "product and remainder trees (_product_tree, _multi_eval), MultiZmodP::ntt_inplace. The recursive Fermat fft/mulfft is modelled "
+              "word-exactly and compared; dft_conv proves the algebraic recursion (any commutative ring, principal root; root_half: the code's root "
+              "qualifies) but is not instantiated down to words because FInt::mul is K/O-only: kronecker_cyclic takes the exactness of the "
+              "transform product as its hypothesis ExactCyc, checked on the code by the fint_mulfft cases. crt_q_estimate_partial is an arithmetic statement: that the words "
               "read by the three branches of the model equal the truncated quotients of the prime table is only checked by K/O (mzp_crt, mzp_redc). "
               "ZmodN operations are exact modular arithmetic on the domain proved in C07; bnum operators are Nat arithmetic.")
 TECHNIQUE = "Lean 4 proof about a hand model + differential correspondence check + spec oracle"
